@@ -271,6 +271,47 @@ theorem srvHost_perm_invariant (thr : Nat) (l l' : List Bytes) (look : Bytes →
     srvHostCase thr l look emptyGlobal rhost = srvHostCase thr l' look emptyGlobal rhost := by
   rw [srvHostCase_eq, srvHostCase_eq, hasDup_perm (hp.map lower), hp.any_eq, hp.any_eq]
 
+/-! ## the host matcher of the automatic HTTP→HTTPS redirect route -/
+
+/-- FULL STATEMENT (false for the code as it is, `provisioned = false`): which redirect a name gets
+    does not depend on how many other names the server has.  Counter-example (threshold 2 in
+    place of 100): one route with `Example.com` — `example.com` is redirected by the host-matched
+    route; the same route plus a second route with two unrelated names — it falls to the
+    catch-all.  The matcher is used without `Provision`, so a "large" list is neither
+    lower-cased nor laid out for the binary search.  Known finding `srvredir-size`;
+    with the matcher provisioned the clause holds (`redirHost_provisioned_is_plain_scan`). -/
+theorem redirHost_size_invariant_unprovisioned_fails :
+    redirCase false 2 [[[69, 120, 97, 109, 112, 108, 101, 46, 99, 111, 109]]] (fun _ => []) (fun _ => []) (fun _ => false) [101, 120, 97, 109, 112, 108, 101, 46, 99, 111, 109] = .res true ∧
+    redirCase false 2 [[[69, 120, 97, 109, 112, 108, 101, 46, 99, 111, 109]], [[122, 122, 49, 46, 105, 110, 118, 97, 108, 105, 100], [122, 122, 50, 46, 105, 110, 118, 97, 108, 105, 100]]] (fun _ => []) (fun _ => []) (fun _ => false) [101, 120, 97, 109, 112, 108, 101, 46, 99, 111, 109] = .res false ∧
+    redirCase true 2 [[[69, 120, 97, 109, 112, 108, 101, 46, 99, 111, 109]], [[122, 122, 49, 46, 105, 110, 118, 97, 108, 105, 100], [122, 122, 50, 46, 105, 110, 118, 97, 108, 105, 100]]] (fun _ => []) (fun _ => []) (fun _ => false) [101, 120, 97, 109, 112, 108, 101, 46, 99, 111, 109] = .res true := by
+  decide
+
+/-- provable part for the code as it is: up to `thr` redirect domains the unprovisioned matcher is
+    the plain scan of the domain list -/
+theorem redirHost_unprovisioned_partial (thr : Nat) (domains : List Bytes) (look : Bytes → Bytes) (rhost : Bytes)
+    (h : ¬ domains.length > thr) :
+    redirMatch false thr domains look rhost =
+      domains.any (fun d => entryMatches (stripPort rhost) (expand look d.length d)) := by
+  unfold redirMatch
+  simp only [Bool.false_eq_true, if_false]
+  exact matchHostX_small _ thr domains rhost h
+
+/-- **with the redirect matcher provisioned, it answers like the plain scan of the
+    (case-insensitively de-duplicated) domain list, for every number of names and every threshold** -/
+theorem redirHost_provisioned_is_plain_scan (thr : Nat) (domains : List Bytes) (look : Bytes → Bytes) (rhost : Bytes) :
+    redirMatch true thr domains look rhost =
+      (dedupCI [] domains).any (fun d => entryMatches (stripPort rhost) (expand look d.length d)) := by
+  unfold redirMatch
+  simp only [if_true]
+  rcases provisioned_matchX (fun e => expand look e.length e) (fun e he => expand_exact look e he) thr
+      (dedupCI [] domains) rhost (dedupCI_no_dup domains) with ⟨m, hm, hx⟩
+  rw [hm]
+  exact hx
+
+theorem redirHost_provisioned_size_invariant (thr thr' : Nat) (domains : List Bytes) (look : Bytes → Bytes) (rhost : Bytes) :
+    redirMatch true thr domains look rhost = redirMatch true thr' domains look rhost := by
+  rw [redirHost_provisioned_is_plain_scan, redirHost_provisioned_is_plain_scan]
+
 /-! ## path.Clean / cleanPath -/
 
 /-- `path.Clean` is idempotent -/
